@@ -815,7 +815,65 @@ def rule_chain_i(chk, py, tus):
                    "integral for spec %s (%s) scales as lambda^%s relative to `se` (degree %s in exponent units, "
                    "l-shift %+d) but SPEC_USPS[%r] = %s" % (label, fn, lam, d[0] - d0[0], int(shift), s, usp), inst_d)
     chk.guard(rule_feat_orders_position, ic, tu)
+    chk.guard(rule_kernel_derivative, ic, tu, ends)
     return ic
+
+
+def rule_kernel_derivative(chk, ic, tu, ends):
+    """k_se_r2 = r^2 exp(-a r^2) = -d/da exp(-a r^2): the matrix element stored for se_r2 must be minus the
+    a-derivative of the one stored for se, INCLUDING the a-dependent prefactor that generate_atc_integrals_vi
+    multiplies every integral with.  With M_k = P(a) * F_k(l, a, expi, expj):  F_r2 / F_se == -d/da log(P * F_se).
+    Both sides are rational functions of (a, expi, expj, l); they are compared after full expansion."""
+    f0 = ends.get(("se", None), (None, None))[1]
+    f1 = ends.get(("se_r2", None), (None, None))[1]
+    if f0 is None or f1 is None:
+        chk.note("kernel-derivative", "se / se_r2", "a spec does not resolve; derivative relation not checked")
+        return
+    fn = ic.ladder_func if tu.body(ic.ladder_func) is not None else LADDER_FUNC
+    ev = tc.Ev(tu)
+    ev.lenient = True
+    ev.inline_calls = fn != LADDER_FUNC
+    env = tc.new_env({p["id"]: "v:" + str(p.get("name")) for p in tu.params(LADDER_FUNC)})
+    ev.block(tu.body(LADDER_FUNC), env)
+    hits = []
+    for st in env["stores"]:
+        for m, c in st["value"].t.items():
+            fp = [a for a, e in m if a[0] == "fn" and str(a[1]).startswith("<fptr:") and e == 1]
+            if len(fp) == 1 and st["value"].single():
+                hits.append((st, m, c, fp[0]))
+    if len(hits) != 1:
+        raise core.AnalysisError("%s: expected one store of prefactor * (*integral_func)(...), found %d (skipped: %s)" % (
+            LADDER_FUNC, len(hits), ev.skipped[:2]))
+    st, m, c, fp = hits[0]
+    args = [Poly(dict(x)) for x in fp[2]]
+    if len(args) != 4 or not all(a.single() and next(iter(a.t.values())) == 1 and len(next(iter(a.t))) == 1 for a in args):
+        raise core.AnalysisError("%s: the integral function is not called with four plain arguments" % LADDER_FUNC)
+    arg_atoms = [next(iter(a.t))[0][0] for a in args]
+    ren = dict(zip(arg_atoms, [Poly.atom(("sym", r)) for r in ("l", "alpha", "expi", "expj")]))
+    pe = tc._plain_ev()
+    P = Poly({tuple((a, e) for a, e in m if a is not fp): Fr(1)})
+    Pm = tc.map_atoms(P, lambda a: ren.get(a), pe)
+    if not Pm.single():
+        raise core.AnalysisError("prefactor of the integral is not a single product")
+    alpha = ("sym", "alpha")
+    V0, V1 = ic.value(f0)[0], ic.value(f1)[0]
+    if not V0.single():
+        raise core.AnalysisError("the `se` integral is not a single product")
+    (m0, c0), = V0.t.items()
+    r1 = V1.mul_raw(pe.inv(V0))
+    r2 = -(tc.dlog_mono(next(iter(Pm.t)), alpha, pe) + tc.dlog_mono(m0, alpha, pe))
+    inst = "%s == -d/dalpha [prefactor * %s] / prefactor" % (f1, f0)
+    try:
+        same = tc.ratfun_equal(r1, r2)
+    except core.AnalysisError as e:
+        raise core.AnalysisError("derivative relation between %s and %s cannot be put in rational form: %s" % (f1, f0, e))
+    if same:
+        chk.ok("kernel-derivative", inst, detail="prefactor %s" % Pm.text()[:120])
+    else:
+        chk.violation("kernel-derivative", F_CONV, f1, "%s / %s" % (f1, f0), tu.line_of(tu.func(f1)),
+                      "docs: k_se_r2 = r^2 exp(-a r^2) = -d/da k_se.  With the prefactor %s that %s applies to every integral, "
+                      "%s/%s must equal -d/da log(prefactor * %s) = %s ; the code gives %s" % (
+                          Pm.text()[:90], LADDER_FUNC, f1, f0, f0, r2.text()[:200], r1.text()[:200]), instance=inst)
 
 
 def se_shape(V0):
@@ -1319,6 +1377,9 @@ def _analyse_own(chk):
                                  "(or uses them itself)")
     chk.rule("inverse-pair", "forward and inverse maps between exponent, ladder index and spline knot index compose to the "
                              "identity (knot layout x index scaling = 1; cider_ind_*(get_q2a(q)) = q; clip bound = last knot)")
+    chk.rule("kernel-derivative", "the se_r2 integral is minus the alpha-derivative of the se integral including the common "
+                                  "alpha-dependent prefactor (rational functions compared exactly)")
+    chk.floor("kernel-derivative", 1, "one derivative pair (se, se_r2); the other r^2 kernels follow by the relations")
     chk.rule("totality", "allowed specs have ids, USPs, contributions, C cases/arms, ueg branches")
     py = PyTables(chk.tree)
     tus = cfacts.load_all(chk.tree, [C_COEFS, C_CONV], jobs=2)
